@@ -88,7 +88,9 @@ def cosmetic(text, kind):
             out.append(ln)
     t = "\n".join(out)
     if kind == "cosmetic_no_end":
-        t = t.replace("===END===\n", "")
+        k = t.rfind("===END===\n")          # the closing line only: a zone may contain the same text as content
+        if k >= 0:
+            t = t[:k] + t[k + len("===END===\n"):]
     return t
 
 
